@@ -31,6 +31,10 @@ type HarnessCfg struct {
 	MaxSec   int   `json:"maxSec"`
 	Replay   int   `json:"replay"`
 	Tier     string `json:"tier"` // "" both, "thorough" only in thorough
+	// ThoroughProps: when set, the harness explores its thorough space only under these properties;
+	// under the other properties that list it, the thorough tier runs the quick space (a harness
+	// shared by several properties would otherwise repeat hours of identical exploration)
+	ThoroughProps []string `json:"thoroughProps"`
 }
 
 var (
@@ -360,6 +364,16 @@ func runHarness(w *World, execs []*Exec, h *ssa.Function, cfg *HarnessCfg) *Harn
 		e.res = res
 		e.queue = q
 		e.harness = h.Name()
+		e.tier = *flagTier
+		if len(cfg.ThoroughProps) > 0 && *flagTier == "thorough" {
+			in := false
+			for _, pr := range cfg.ThoroughProps {
+				in = in || pr == *flagProp
+			}
+			if !in {
+				e.tier = "quick" // this harness's thorough space is explored under its own properties only
+			}
+		}
 		e.maxDec = maxDec
 		e.maxSteps = maxSteps
 		e.replayN = nreplay
